@@ -121,7 +121,11 @@ impl<'a> Gen<'a> {
         let multiline = self.rng.chance(1, 3);
         let mut s = String::from("{");
         if multiline { s.push_str(self.nl()); }
+        // in a table written over several lines: comments on lines of their own between the fields and before the closing
+        // brace, and comments that trail a field on its line
+        let tc = multiline && self.k.comments != Comments::None;
         for i in 0..n {
+            if tc && self.rng.chance(1, 8) { self.stats[0] += 1; s.push_str(&format!(" -- t{}{}", self.rng.below(1000), self.nl())); }
             let sp = self.sp();
             s.push_str(&sp);
             match self.rng.below(4) {
@@ -130,8 +134,10 @@ impl<'a> Gen<'a> {
                 _ => { let e = self.expr(1); s.push_str(&e); }
             }
             if i + 1 < n || self.rng.chance(1, 3) { s.push_str(if self.rng.chance(1, 6) { ";" } else { "," }); }
+            if tc && self.rng.chance(1, 5) { self.stats[0] += 1; s.push_str(&format!(" -- f{}", self.rng.below(1000))); }
             if multiline { s.push_str(self.nl()); }
         }
+        if tc && self.rng.chance(1, 10) { self.stats[0] += 1; s.push_str(&format!(" -- e{}{}", self.rng.below(1000), self.nl())); }
         s.push_str(" }");
         s
     }
